@@ -308,6 +308,33 @@ func (r *kvRunner) transfer(dup bool) *vcommon.Violation {
 			return r.fail("drop-error", "Drop: %v", err)
 		}
 		moved++
+		// The source in the middle of a hand-over (the balancer ships one table per call and the fragment keeps
+		// serving): a cursor scan yields exactly the keys it still holds, each once.
+		held := map[string]bool{}
+		r.s.Range(func(hkey uint64, e storage.Entry) bool {
+			held[e.Key()] = true
+			return true
+		})
+		seen, _, v := r.fullScan(3, "")
+		if v != nil {
+			return v
+		}
+		for k, n := range seen {
+			if !held[k] {
+				return r.fail("scan-after-drop", "after table %d was exported and dropped a scan of the source still yields %q, which it no longer holds (Range yields %d keys)", moved, k, len(held))
+			}
+			if n != 1 {
+				return r.fail("scan-after-drop", "after table %d was exported and dropped a scan of the source yields %q %d times", moved, k, n)
+			}
+		}
+		for k := range held {
+			if seen[k] == 0 {
+				return r.fail("scan-after-drop", "after table %d was exported and dropped a scan of the source misses %q, which Range still yields", moved, k)
+			}
+		}
+		if n := r.s.Stats().Length; n != len(held) {
+			return r.fail("scan-after-drop", "after table %d was exported and dropped the source reports Length %d, Range yields %d keys", moved, n, len(held))
+		}
 	}
 	if moved >= 2 {
 		r.labels["transfer>=2tables"] = true
